@@ -163,15 +163,21 @@ func runC11(r *Run) {
 	}
 	// expiry sweep: the cleaner removes what expired
 	// small configured sizes must not turn the bound off: fill far beyond the minimum capacity
-	for _, size := range []int{1, 33, 63, -1, 0, 700} {
+	// ... and sizes that are not a multiple of the shard count must not be rounded up
+	for _, size := range []int{1, 33, 63, -1, 0, 700, 1025, 1087, 1100} {
 		if raceOnly {
 			break
 		}
+		fillCap := size
+		if fillCap < 1024 {
+			fillCap = 1024
+		}
+		nKeys := fillCap + 376
 		c := cache.New[hkey, int](cache.Opts{Size: size, CleanerInterval: time.Hour})
 		base := time.Now().Add(-100 * time.Second)
 		var ops, outs []string
 		keys := map[hkey]bool{}
-		for i := 0; i < 1400; i++ {
+		for i := 0; i < nKeys; i++ {
 			k := hkey(uint64(i%64)*1000 + uint64(i/64))
 			c.Store(k, i, base.Add(700*time.Second))
 			after := map[hkey]bool{}
@@ -189,8 +195,8 @@ func runC11(r *Run) {
 		n := c.Len()
 		ops = append(ops, "l")
 		outs = append(outs, fmt.Sprintf("len:%d", n))
-		if n > 1024 {
-			r.Fail("the cache holds more entries than its capacity (the documented minimum of 1024 for a smaller configured size)", map[string]any{"configured_size": size, "len": n, "stored_distinct_keys": 1400})
+		if n > fillCap {
+			r.Fail("the cache holds more entries than its capacity (the configured size, or the documented minimum of 1024 for a smaller one) after distinct keys were stored evenly across the shards", map[string]any{"configured_size": size, "capacity": fillCap, "len": n, "stored_distinct_keys": nKeys})
 		}
 		c.Close()
 		r.Line(fmt.Sprintf("cache %d %s", size, strings.Join(ops, ",")), strings.Join(outs, ";"))
@@ -372,5 +378,76 @@ func runC11(r *Run) {
 		r.meta.Dist["concurrent-hits-checked"] += hits
 		r.Trace()
 	}
-	r.Finish("part 1: sequential histories (60..260 operations, or enough to overflow a shard) of store / get / flush / len on pkg/cache.Cache for configured sizes {-5, 0, 1, 63, 64, 100, 1024, 1025, 1100, 2048, 4097} with keys hashed into one hot shard and across shards, expiry already past / 25 ms ahead / far ahead, eviction victims read back after every store; sweep histories with a 15 ms cleaner; part 2: 8 goroutines x 1500 operations (store / get / flush / len / range, short expiries, 5 ms cleaner) over 120 keys in 3 shards with logical timestamps: every hit is checked for foreign, expired, overwritten or flushed values, every Len / Range count against the capacity")
+	// ------------------------------------------------------------------ part 3
+	// bursts of simultaneous lookups of one just-expired key (each removes it), with a sweep and stores in between,
+	// followed by every operation that walks the entry again: none may crash and none may return the dead value
+	bursts := r.N(400, 4000)
+	{
+		c := cache.New[hkey, int](cache.Opts{Size: 1024, CleanerInterval: time.Hour})
+		crashed := ""
+		guard := func(what string, f func()) {
+			defer func() {
+				if e := recover(); e != nil && crashed == "" {
+					crashed = fmt.Sprintf("%s panicked: %v", what, e)
+				}
+			}()
+			f()
+		}
+		var cmu sync.Mutex
+		for b := 0; b < bursts && crashed == ""; b++ {
+			k := hkey(uint64(b%64)*1000 + uint64(b%7))
+			c.Store(k, b, time.Now().Add(300*time.Microsecond))
+			time.Sleep(500 * time.Microsecond)
+			start := make(chan struct{})
+			var wg sync.WaitGroup
+			hitDead := int32(0)
+			for w := 0; w < 6; w++ {
+				wg.Add(1)
+				go func() {
+					defer wg.Done()
+					defer func() {
+						if e := recover(); e != nil {
+							cmu.Lock()
+							if crashed == "" {
+								crashed = fmt.Sprintf("concurrent Get of an expired key panicked: %v", e)
+							}
+							cmu.Unlock()
+						}
+					}()
+					<-start
+					if _, _, ok := c.Get(k); ok {
+						atomic.AddInt32(&hitDead, 1)
+					}
+				}()
+			}
+			close(start)
+			wg.Wait()
+			if hitDead > 0 {
+				r.Fail("a lookup returned a value that had expired", map[string]any{"key": uint64(k), "burst": b})
+			}
+			guard("Get after the burst", func() {
+				if _, _, ok := c.Get(k); ok {
+					r.Fail("a lookup returned a value that had expired", map[string]any{"key": uint64(k), "burst": b, "after_burst": true})
+				}
+			})
+			if b%16 == 0 {
+				guard("Range after the burst", func() { c.Range(func(hkey, int, time.Time) error { return nil }) })
+				guard("Len after the burst", func() { c.Len() })
+			}
+			guard("Store after the burst", func() { c.Store(k, b, time.Now().Add(time.Hour)) })
+			guard("Get of the fresh value", func() {
+				if v, _, ok := c.Get(k); !ok || v != b {
+					r.Fail("a value stored after its key's expired entry had been removed was not returned", map[string]any{"key": uint64(k), "burst": b, "got": v, "ok": ok})
+				}
+			})
+		}
+		if crashed != "" {
+			r.Fail("the cache crashed after simultaneous lookups of one expired key", map[string]any{"what": crashed})
+		}
+		guard("Close", func() { c.Close() })
+		r.Eval("expired-key-bursts", true)
+		r.meta.Dist["expired-key-bursts"] += bursts
+		r.Trace()
+	}
+	r.Finish("part 1: sequential histories (60..260 operations, or enough to overflow a shard) of store / get / flush / len on pkg/cache.Cache for configured sizes {-5, 0, 1, 63, 64, 100, 1024, 1025, 1100, 2048, 4097} with keys hashed into one hot shard and across shards, expiry already past / 25 ms ahead / far ahead, eviction victims read back after every store; sweep histories with a 15 ms cleaner; part 2: 8 goroutines x 1500 operations (store / get / flush / len / range, short expiries, 5 ms cleaner) over 120 keys in 3 shards with logical timestamps: every hit is checked for foreign, expired, overwritten or flushed values, every Len / Range count against the capacity; part 3: bursts of 6 simultaneous lookups of one just-expired key followed by get / range / len / store / get on it")
 }
